@@ -90,6 +90,7 @@ func c04TopCogFrame(stack string) string {
 			start = i + 1
 		}
 	}
+	top := ""
 	for _, l := range lines[start:] {
 		if !strings.HasPrefix(l, c04CogModule) {
 			continue
@@ -97,7 +98,20 @@ func c04TopCogFrame(stack string) string {
 		if strings.Contains(l, "/cmd/verifharness") {
 			continue
 		}
-		return c04FrameName(l)
+		fn := c04FrameName(l)
+		if top == "" {
+			// a trivial accessor says nothing about the mechanism: name its caller as well
+			if strings.HasPrefix(fn, "internal/ast.Type.As") || strings.HasPrefix(fn, "internal/tools.") || strings.HasPrefix(fn, "internal/orderedmap.") ||
+				strings.HasPrefix(fn, "internal/ast.Path.") || strings.HasPrefix(fn, "internal/ast.Type.Is") || strings.HasPrefix(fn, "internal/ast.Type.Implement") {
+				top = fn
+				continue
+			}
+			return fn
+		}
+		return top + "<-" + fn
+	}
+	if top != "" {
+		return top
 	}
 	return "?"
 }
